@@ -139,6 +139,30 @@ impl Names {
     pub fn fresh(&mut self, ch: &mut Ch, prefix: &str, nonascii: u32) -> String {
         loop {
             self.n += 1;
+            // letter-case variety: identifiers are case-sensitive in WGSL, and several generated Rust
+            // names are derived by upper-/snake-casing them
+            let pfx = match ch.below(8) {
+                0 => {
+                    let mut c = prefix.chars();
+                    match c.next() {
+                        Some(f) => f.to_uppercase().collect::<String>() + c.as_str(),
+                        None => String::new(),
+                    }
+                }
+                1 => prefix.to_uppercase(),
+                2 => format!("{}Xy", prefix.trim_end_matches('_')),
+                3 => {
+                    let mut c = prefix.chars();
+                    match c.next() {
+                        Some(f) => f.to_lowercase().collect::<String>() + c.as_str(),
+                        None => String::new(),
+                    }
+                }
+                // leading underscore (`_pad0`); `__` is reserved in WGSL
+                4 if !prefix.starts_with('_') => format!("_{prefix}"),
+                _ => prefix.to_string(),
+            };
+            let prefix = pfx.as_str();
             let mut s = format!("{}{}", prefix, self.n);
             if nonascii > 0 && ch.chance(nonascii, 8) {
                 s.push_str(*ch.pick(&NONASCII[..]));
